@@ -31,7 +31,7 @@ cd "$TARGET" && { if [ "$TARGET" = /repo ]; then git apply "$OUT/patch.diff"; el
 RES=""
 for P in $PROP "$@"; do
   T0=$(date +%s)
-  (cd /verif && timeout 1500 ./check $P --repo "$TARGET" > "$OUT/check_$P.log" 2>&1); RC=$?
+  (cd /verif && timeout 1500 ./check $P --repo "$TARGET" --out "$OUT/evidence_$P.json" > "$OUT/check_$P.log" 2>&1); RC=$?
   T1=$(date +%s)
   V=$(grep -c '^VIOLATION' "$OUT/check_$P.log")
   RES="$RES $P:exit=$RC,violations=$V,$((T1-T0))s"
